@@ -12,8 +12,12 @@ package gtreap
 
 // The treap (github.com/blevesearch/gtreap) is persistent: Upsert / Delete return a new treap and
 // leave the receiver untouched; Get only reads. Assumed.
+// (tget: the item a treap holds for a key, nil when there is none; a function of the treap and of the
+// key's bytes. The store only ever inserts *Item values.)
+//@ uf tget(t *gtreap.Treap, k []byte) *Item
 //@ assume func gtreap.Treap.Get(t, target)
-//@   requires t != nil
+//@   requires t != nil && typeis(target, *Item) && target.(*Item) != nil
+//@   ensures implies(tget(t, target.(*Item).k) == nil, result == nil) && implies(tget(t, target.(*Item).k) != nil, typeis(result, *Item) && result.(*Item) == tget(t, target.(*Item).k))
 //@ assume func gtreap.Treap.Upsert(t, item, itemPriority)
 //@   requires t != nil
 //@   ensures result != nil
@@ -30,7 +34,7 @@ package gtreap
 //@   props C15
 //@   mode int
 //@   locks
-//@   requires w != nil && w.s != nil && w.s.t != nil && w.s.mo != nil && !held(w.s.m)
+//@   requires w != nil && w.s != nil && w.s.t != nil && w.s.mo != nil && !held(w.s.m) && rheld(w.s.m) == 0
 //@   requires implies(typeis(batch, *store.EmulatedBatch), batch.(*store.EmulatedBatch) != nil && batch.(*store.EmulatedBatch).Merger != nil && forall(k, 0, len(batch.(*store.EmulatedBatch).Ops), batch.(*store.EmulatedBatch).Ops[k] != nil))
 //@   modifies w.s.t
 //@   ensures !held(w.s.m)
@@ -44,5 +48,5 @@ package gtreap
 //@   props C15
 //@   mode int
 //@   locks
-//@   requires s != nil && !held(s.m)
+//@   requires s != nil && !held(s.m) && rheld(s.m) == 0
 //@   ensures !held(s.m) && result1 == nil && result0 != nil
